@@ -84,6 +84,28 @@ let with_dm w = { w with dw_dm = !mwr }
 
 let words s = List.filter (fun x -> x <> "") (String.split_on_char ' ' s)
 
+(* tree syntax of the N command: L = node with a number, H = hard link entry, D( children ) = directory *)
+let parse_tree (s : string) : tnode =
+  let pos = ref 0 in
+  let rec node () =
+    let c = s.[!pos] in
+    incr pos;
+    match c with
+    | 'L' -> TLeaf false
+    | 'H' -> TLeaf true
+    | 'D' ->
+      incr pos;                       (* '(' *)
+      let ch = ref [] in
+      while s.[!pos] <> ')' do ch := node () :: !ch done;
+      incr pos;
+      TDir (List.rev !ch)
+    | _ -> failwith "bad tree"
+  in
+  node ()
+
+let rec nat_of_int i = if i = 0 then O else S (nat_of_int (i - 1))
+let rec int_of_nat = function O -> 0 | S n -> 1 + int_of_nat n
+
 let () =
   try
     while true do
@@ -175,6 +197,16 @@ let () =
            | Ok s -> Printf.printf "S 0 %s\n" (hex (super_write s))
            | Err e -> Printf.printf "S %d -\n" (int_of_z e)
            | Fuel -> print_endline "S FUEL")
+        | 'N', [t] ->
+          let nums = numbering (parse_tree t) in
+          let b = Buffer.create 4096 in
+          Buffer.add_string b "N";
+          List.iter (fun (p, n) ->
+            Buffer.add_char b ' ';
+            Buffer.add_string b (String.concat "." (List.map (fun k -> string_of_int (int_of_nat k)) p));
+            Buffer.add_char b ':';
+            Buffer.add_string b (string_of_n n)) nums;
+          print_endline (Buffer.contents b)
         | _ -> Printf.printf "? %s\n" line
       end
     done
